@@ -983,6 +983,7 @@ example (H : Hash) (n : Node) : packedIter H (.uint 32) n 1 3 = none := by rfl
 
 example (H : Hash) :
     bitfieldIter H (.leaf (UInt8.ofNat 5 :: zeros 31)) 0 4 = some [true, false, true, false] := by
-  rfl
+  simp [bitfieldIter, bitfieldIterRun, bitfieldIterNext, bitfieldIterBit, nodeIterNext, descendLeft,
+    Node.isLeaf, Node.root]
 
 end Rmk.ItersLaws
